@@ -452,6 +452,8 @@ contains
     case ("item_add_all")
        allocate(iv(b)); do i = 1, b; iv(i) = i; end do
        call sim_phase(1); r = h(a)%add_all(iv); call sim_phase(0); call res_int(int(r)); deallocate(iv)
+    case ("item_rebind")
+       call sim_phase(1); call h(b)%set_instance(h(a)%get_instance()); call sim_phase(0); call res_none()
     case ("item_assoc")
        call sim_phase(1); sm = merge(1, 0, h(a)%associated()); call sim_phase(0); call res_int(sm)
     case ("arr_sum_d")
